@@ -537,12 +537,15 @@ def fold_seq(ip, fname, seq):
         s, i = z3.Const("fs", V.VS), z3.Int("fi")
         if fname == "sum":
             F = z3.RecFunction("SumSeq", V.VS, V.I, V.I)
-            z3.RecAddDefinition(F, [s, i], z3.If(z3.Or(i < 0, i >= z3.Length(s)), z3.IntVal(0), V.intval(s[i]) + F(s, i + 1)))
+            body = z3.If(z3.Or(i < 0, i >= z3.Length(s)), z3.IntVal(0), V.intval(s[i]) + F(s, i + 1))
         else:
             F = z3.RecFunction(f"{fname.title()}Seq", V.VS, V.I, V.B)
             dec = V.truth(s[i]) if fname == "any" else z3.Not(V.truth(s[i]))
-            z3.RecAddDefinition(F, [s, i], z3.If(z3.Or(i < 0, i >= z3.Length(s)), z3.BoolVal(fname == "all"),
-                                                  z3.If(dec, z3.BoolVal(fname == "any"), F(s, i + 1))))
+            body = z3.If(z3.Or(i < 0, i >= z3.Length(s)), z3.BoolVal(fname == "all"),
+                         z3.If(dec, z3.BoolVal(fname == "any"), F(s, i + 1)))
+        z3.RecAddDefinition(F, [s, i], body)
+        from . import specfun
+        specfun.register_feasibility_only(F, [s, i], body)       # unfolded to a bounded depth in feasibility / spec-function queries
         _FOLD_SEQ[fname] = F
     F = _FOLD_SEQ[fname]
     if fname == "sum":
